@@ -63,10 +63,9 @@ func (a *application) start(mode gen.ApplicationMode, options gen.ApplicationOpt
 
 		pid, err := a.node.spawn(item.Factory, opts)
 		if err != nil {
-			a.group.Range(func(pid gen.PID, _ bool) bool {
+			for _, pid := range a.members() {
 				a.node.Kill(pid)
-				return true
-			})
+			}
 			atomic.StoreInt32(&a.state, int32(gen.ApplicationStateLoaded))
 			return err
 		}
@@ -121,14 +120,13 @@ func (a *application) stop(force bool, timeout time.Duration) error {
 	// update mode to prevent triggering 'permantent' mode
 	a.mode = gen.ApplicationModeTemporary
 
-	a.group.Range(func(pid gen.PID, _ bool) bool {
+	for _, pid := range a.members() {
 		if force {
 			a.node.Kill(pid)
 		} else {
 			a.node.SendExit(pid, gen.TerminateReasonShutdown)
 		}
-		return true
-	})
+	}
 
 	if force {
 		a.reason = gen.TerminateReasonKill
@@ -225,6 +223,18 @@ func (a *application) terminate(pid gen.PID, reason error) {
 		return
 	}
 	a.registerAppRoute() // new state for the app
+}
+
+// members returns a snapshot of the group. Kill may terminate a sleeping process
+// synchronously, which re-enters a.terminate (write lock of a.group): it must not be
+// called from inside a.group.Range (read lock held).
+func (a *application) members() []gen.PID {
+	pids := make([]gen.PID, 0, a.group.Len())
+	a.group.Range(func(pid gen.PID, _ bool) bool {
+		pids = append(pids, pid)
+		return true
+	})
+	return pids
 }
 
 func (a *application) info() gen.ApplicationInfo {
